@@ -249,3 +249,62 @@ Qed.
 
 Lemma ex_plain : tb_plain ex_tables = true.
 Proof. vm_compute. reflexivity. Qed.
+
+(* ================================================================ shared-node edges and the single-variant case *)
+Definition single_variantb (root : vkey) (g : graph) : bool :=
+  forallb (fun e1 => forallb (fun e2 => if pkey_dec (mk_pk (e_mk e1)) (mk_pk (e_mk e2))
+                                        then (if mkey_dec (e_mk e1) (e_mk e2) then true else false) else true)
+                             (g_edges g)) (g_edges g)
+  && forallb (fun e => if pkey_dec (mk_pk (e_mk e)) (vk_pk root)
+                       then (if mkey_dec (e_mk e) (root_mkey root) then true else false) else true) (g_edges g).
+
+Lemma single_variantb_spec root g : single_variantb root g = true -> single_variant root g.
+Proof.
+  unfold single_variantb. rewrite andb_true_iff, !forallb_forall. intros [A B]. split.
+  - intros e1 e2 H1 H2 E. specialize (A e1 H1). rewrite forallb_forall in A. specialize (A e2 H2).
+    destruct (pkey_dec (mk_pk (e_mk e1)) (mk_pk (e_mk e2))); [|contradiction].
+    destruct (mkey_dec (e_mk e1) (e_mk e2)); congruence.
+  - intros e He E. specialize (B e He). destruct (pkey_dec (mk_pk (e_mk e)) (vk_pk root)); [|contradiction].
+    destruct (mkey_dec (e_mk e) (root_mkey root)); congruence.
+Qed.
+
+Lemma table_lists_faithful_ok t : tb_lists_faithful t = true -> versions_faithful (tc_versions t).
+Proof.
+  intros H pk vs. unfold tc_versions. destruct (aget pkey_dec (t_lists t) pk) as [r|] eqn:G; [|discriminate].
+  intros -> v Hv. apply aget_In in G. unfold tb_lists_faithful in H. rewrite forallb_forall in H.
+  specialize (H _ G). simpl in H. rewrite forallb_forall in H. specialize (H v Hv).
+  destruct (pkey_dec (vk_pk (v_vk v)) pk); congruence.
+Qed.
+
+Lemma ex_versions_faithful : versions_faithful (tc_versions ex_tables).
+Proof. apply table_lists_faithful_ok. vm_compute. reflexivity. Qed.
+Lemma ex_single_variant : single_variant ex_root ex_graph.
+Proof. apply single_variantb_spec. vm_compute. reflexivity. Qed.
+(* the witness of F-C07-1 has a shared-node edge and is not single-variant *)
+Lemma w1_has_shared_edge :
+  existsb (fun e => match e_kind e with EShared => true | _ => false end) (g_edges w1_graph) = true
+  /\ single_variantb w1_root w1_graph = false.
+Proof. vm_compute. split; reflexivity. Qed.
+
+(* in the example universe the first (and only) declaration of b:b is the range [1,2]; it selects version 2 *)
+Definition ex_b : mkey := mkMK (mkPK 6 [98;58;98]) [] [].     (* b:b *)
+Lemma ex_first_is_range :
+  match filter (on_k ex_b) (g_edges ex_graph) with
+  | e0 :: _ => bytes_eqb (e_req e0) [91;49;44;50;93] && bytes_eqb (vk_ver (e_to e0)) [50]
+  | [] => false
+  end = true
+  /\ forallb (fun ne => if mkey_dec (ne_mk ne) ex_b then false else true) (g_errs ex_graph) = true.
+Proof. vm_compute. split; reflexivity. Qed.
+
+(* the witness of F-C07-2 resolves in two passes; the final requirement list of p:p is [1; 2] (1 is left over from
+   the abandoned pass) and, as C07_final_list_decides says, the edge of p:p points to what findMatch answers on it *)
+Definition w2_reqs : reqmap := Eval vm_compute in
+  fst (resolve_full (tc_version w2_tables) (tc_versions w2_tables) (tc_requirements w2_tables) (tc_simple w2_tables)
+                    (tc_match w2_tables) (tc_less w2_tables) 50 w2_root).
+Lemma w2_full :
+  resolve_full (tc_version w2_tables) (tc_versions w2_tables) (tc_requirements w2_tables) (tc_simple w2_tables)
+               (tc_match w2_tables) (tc_less w2_tables) 50 w2_root = (w2_reqs, Ok w2_graph)
+  /\ map vk_ver (reqs_of w2_reqs w2_k) = [[49]; [50]]
+  /\ length (filter (on_k w2_k) (g_edges w2_graph)) = 1%nat
+  /\ forallb (fun ne => if mkey_dec (ne_mk ne) w2_k then false else true) (g_errs w2_graph) = true.
+Proof. vm_compute. repeat split; reflexivity. Qed.
